@@ -543,7 +543,23 @@ fn apply_info_ops(info: &mut StreamInfo, ops: &[InfoOp], out: &mut Outcome) -> b
                 out.class("StreamInfo:setter-refused");
                 return false;
             }
-            Ok(Ok(())) => {}
+            Ok(Ok(())) => {
+                // a setter that returned Ok (or has no Result) for a value inside the serialisable range must have
+                // stored that value: the accessors state it
+                let kept = match op {
+                    InfoOp::BlockSizes(a, b) => info.min_block_size() == *a && info.max_block_size() == *b,
+                    InfoOp::FrameSizes(a, b) => info.min_frame_size() == *a && info.max_frame_size() == *b,
+                    InfoOp::Total(n) => info.total_samples() == *n,
+                    InfoOp::Md5(x) => info.md5_digest() == &[*x; 16],
+                };
+                if !kept {
+                    out.viol(
+                        format!("StreamInfo-setter-does-not-store-the-value:{}", match op { InfoOp::BlockSizes(..) => "block-sizes", InfoOp::FrameSizes(..) => "frame-sizes", InfoOp::Total(_) => "total-samples", InfoOp::Md5(_) => "md5" }),
+                        format!("{op:?} was accepted but the accessors state block sizes {}..{}, frame sizes {}..{}, total {}", info.min_block_size(), info.max_block_size(), info.min_frame_size(), info.max_frame_size(), info.total_samples()),
+                    );
+                    return false;
+                }
+            }
         }
     }
     true
